@@ -12,7 +12,7 @@ RULE = ("tree of four 131073-byte files that share prefix and suffix (two equal,
         "small files, on ext4 (deleted inode numbers are reused at once); events: edits {set content variant (same "
         "length; also with the new mtime in the past of the old one), append, truncate, rename, delete+recreate, hard-link, create, edit a small file} - every edit advances "
         "the file's mtime by 10 ms - and runs `group --cache` with a configuration from {metro, blake3, sha512} x {no transform, "
-        "transform cat} x --max-prefix-size {unset, 8192} or with the length-changing transforms `head -c 1000` / `head -c 70000` (same program, different classes), or a run SIGKILLed at 1/4, 1/2, 3/4 of its call history; "
+        "transform cat} x --max-prefix-size {unset, 8192} or with the length-changing transforms `head -c 1000` / `head -c 70000` (same program, different classes), or one command string with and without --in-place, or a run SIGKILLed at 1/4, 1/2, 3/4 of its call history; "
         "ALL histories (edit, run)^d after an initial cache-filling run: quick d=2 over 10 edits x 2 configurations + 5 edits x the (head, head2) switches + 5 x 3 edits under blake3 and sha512 (long digests); "
         "thorough d=2 over the full alphabet and d=3 over 6 edits x 2 configurations (+ killed runs). A state is the "
         "tree + cache after a history prefix; a transition is one event. Invariant after every run: the report body "
@@ -50,6 +50,9 @@ CONFIGS = {
     "metro_head2": ["--hash-fn", "metro", "--transform", "head -c 70000"],
     # digests longer than 128 bits
     "sha512": ["--hash-fn", "sha512"],
+    # the same command string read in two ways: its standard output (nothing), or the file it rewrote (--in-place)
+    "metro_ip_off": ["--hash-fn", "metro", "--transform", "fcv-tr-inplace keep $IN"],
+    "metro_ip_on": ["--hash-fn", "metro", "--transform", "fcv-tr-inplace keep $IN", "--in-place"],
 }
 
 
@@ -69,6 +72,11 @@ def cases(tier, seed):
             for e1 in mix:
                 for e2 in mix[:3]:
                     out.append({"history": [[list(e1), cfg], [list(e2), cfg]], "kills": False})
+        # the same transform command with and without --in-place
+        for c1, c2 in (("metro_ip_off", "metro_ip_on"), ("metro_ip_on", "metro_ip_off")):
+            for e1 in EDITS_QUICK[:2]:
+                for e2 in EDITS_QUICK[:2] + EDITS_QUICK[5:6]:
+                    out.append({"history": [[list(e1), c1], [list(e2), c2]], "kills": False})
         # switching between two transforms that run the same program with different arguments
         few = EDITS_QUICK[:3] + EDITS_QUICK[5:7]
         for c1, c2 in (("metro_head", "metro_head2"), ("metro_head2", "metro_head"), ("metro_head2", "metro_head2")):
